@@ -179,7 +179,7 @@ def gen_case(rng, name, with_unknown, single_class=False):
         ev['cons_b'] = cons_json(kind, cb)
         eb = gen.CLS[base](**bh)
         if kind == 'pairs':
-          pairs, yl = wrap_pairs(X, cb)
+          pairs, yl = gen.documented_pairs(X, cb)
           eb.fit(pairs, yl)
         elif wq is not None:
           eb.fit(X[np.column_stack(cb)], weights=wq.copy())
